@@ -245,6 +245,19 @@ func handle(verb string, a []string) string {
 			eng.Close()
 		}
 		return fmt.Sprintf("ok %d", time.Since(t0).Microseconds())
+	case "sethook": // sethook <name> on|off : exercises the public SetHook API (a pass-through dispatch hook)
+		instMu.Lock()
+		eng := insts[a[0]]
+		instMu.Unlock()
+		if eng == nil {
+			return "err no such instance"
+		}
+		if len(a) > 1 && a[1] == "on" {
+			eng.SetHook(func(cmd string, args map[string]any) (bool, any, error) { return false, nil, nil })
+		} else {
+			eng.SetHook(nil)
+		}
+		return "ok"
 	case "forget":
 		instMu.Lock()
 		delete(insts, a[0])
